@@ -36,8 +36,18 @@ func ghost_wfile(w *bufio.Writer) *os.File { panic("ghost") }
 func ghost_wcount(w *bufio.Writer) int     { panic("ghost") }
 func ghost_encw(e *gob.Encoder) io.Writer  { panic("ghost") }
 
+// Reading: ghost_rpath(r) is the path of the file a reader reads from; a gob decoder has the path of
+// its source and the number of values decoded so far.
+func ghost_rpath(r io.Reader) string         { panic("ghost") }
+func ghost_decpath(d *gob.Decoder) string    { panic("ghost") }
+func ghost_decpos(d *gob.Decoder) int        { panic("ghost") }
+
+//@ ext encoding/gob.NewDecoder(r io.Reader) (d *gob.Decoder)
+//@   ensures d != nil && vcFresh(d) && ghost_decpath(d) == ghost_rpath(r) && ghost_decpos(d) == 0
+
+// (a Stat error is read as "no such file", as the store itself does)
 //@ ext os.Stat(name string) (fi fs.FileInfo, err error)
-//@   ensures (err == nil) ==> ghost_exists(name)
+//@   ensures (err == nil) == ghost_exists(name)
 
 //@ ext os.MkdirAll(path string, perm fs.FileMode) (err error)
 //@   modifies ghost_exists(path)
@@ -52,7 +62,7 @@ func ghost_encw(e *gob.Encoder) io.Writer  { panic("ghost") }
 //@   attr fs-mutating=1
 
 //@ ext os.Open(name string) (f *os.File, err error)
-//@   ensures err == nil ==> f != nil && vcFresh(f) && ghost_fpath(f) == name && ghost_exists(name)
+//@   ensures err == nil ==> f != nil && vcFresh(f) && ghost_fpath(f) == name && ghost_exists(name) && ghost_rpath(f) == name
 //@   ensures err != nil ==> f == nil
 
 //@ ext (*os.File).Close(f *os.File) (err error)
